@@ -49,9 +49,7 @@ Print Assumptions C16_prefix_remainder_is_pipe.
 Theorem C16_frozen_after_verdict :
   forall cap evs1 evs2 s,
     captured s (srun cap (evs1 ++ EStop :: evs2) sst0) = captured s (srun cap evs1 sst0).
-Proof.
-  intros cap evs1 evs2 s. rewrite frozen_after_stop. apply stop_keeps.
-Qed.
+Proof. exact frozen_after_verdict. Qed.
 Print Assumptions C16_frozen_after_verdict.
 
 (* Liveness of the drain ([detect_fd_leaks] keeps polling until EOF): once every holder of the
@@ -95,11 +93,7 @@ Theorem C16_combined_order :
     map snd tg = r_acc (sd_rd x) ++ sd_buf x /\
     (r_done (sd_rd x) = true -> sd_err x = false -> r_acc (sd_rd x) = map snd tg) /\
     (forall s, only s tg = written s evs).
-Proof.
-  intros cap evs. cbn zeta. split; [apply combined_prefix|]. split.
-  - apply combined_complete.
-  - intros s. apply combined_interleaving.
-Qed.
+Proof. exact combined_order. Qed.
 Print Assumptions C16_combined_order.
 
 (* Attribution: with any number of attempts of any tests running concurrently, their events
